@@ -38,7 +38,24 @@ PUSHES = {"std::collections::VecDeque::push_back": "push_back", "std::collection
           "std::vec::Vec::push": "push"}
 
 
-def events(b):
+def param_origin(b, place_or_op, depth=0):
+    """origin() that also looks through *named* snapshots of a parameter (`let SearchIndex { index, distance } = current;`):
+    returns (param local, [fields]) or the plain origin."""
+    pl = place_or_op if isinstance(place_or_op, list) else cfg.op_place(place_or_op)
+    if pl is None:
+        return None
+    r, f = cfg.origin(b, pl)
+    if 0 < r <= b.d["argc"] or depth > 3:
+        return r, f
+    ds = [d for d in cfg.defs(b).get(r, []) if d[0] != "partial"]
+    if len(ds) == 1 and ds[0][0] == "assign" and ds[0][2]["k"] in ("use", "cast") and cfg.op_place(ds[0][2]["o"]):
+        r2, f2 = param_origin(b, ds[0][2]["o"], depth + 1)
+        if 0 < r2 <= b.d["argc"]:
+            return r2, f2 + f
+    return r, f
+
+
+def events(b, fa=None):
     """list of dict(op, branch, follow, source, delta, bb)"""
     out = []
     graph_calls = [(i, t, common.norm(cfg.callee(t) or "")[len(G):]) for i, t in cfg.calls(b)
@@ -48,7 +65,7 @@ def events(b):
     isnode = [(i, t) for i, t in cfg.calls(b) if common.norm(cfg.callee(t) or "").endswith("GraphIndex::is_node")]
     node_sw = []
     for i, t in isnode:
-        o = cfg.op_origin(b, t["a"][0])
+        o = param_origin(b, t["a"][0])
         if o and o[0] == 2:       # current_index.index
             node_sw += cfg.bool_switches(b, cfg.derived_locals(b, [t["d"][0]]))
     follow_sw = cfg.bool_switches(b, cfg.derived_locals(b, [5])) if b.d["argc"] >= 5 else []
@@ -78,8 +95,21 @@ def events(b):
                     if ds and ds[0][2]["k"] == "bin" and ds[0][2]["op"].startswith("Add"):
                         c = cfg.op_const(ds[0][2]["b"]) or cfg.op_const(ds[0][2]["a"])
                         ev["delta"] = c.get("v") if c else "?"
-                    elif r0 == 2 and f0 == [".distance"]:
+                    elif param_origin(b, pl) == (2, [".distance"]):
                         ev["delta"] = 0
+                    else:
+                        # `next_distance(current.distance)` with a local closure `|d| d + 1`
+                        dc = cfg.def_call(b, r0)
+                        if dc and fa is not None:
+                            for cb in common.closure_bodies_passed(fa, b, dc[1]):
+                                adds = [st["r"] for bi, st in cfg.assigns(cb) if st["r"]["k"] == "bin" and st["r"]["op"].startswith("Add")]
+                                if len(adds) == 1 and (cfg.op_const(adds[0]["b"]) or cfg.op_const(adds[0]["a"])):
+                                    src_ok = any(param_origin(b, a) == (2, [".distance"]) for a in dc[1]["a"][1:]) or any(
+                                        (lambda ag: ag and any(param_origin(b, o) == (2, [".distance"]) for o in ag["ops"]))(
+                                            next((d[2] for d in cfg.defs(b).get((cfg.op_place(a) or [None])[0], [])
+                                                  if d[0] == "assign" and d[2]["k"] == "agg"), None)) for a in dc[1]["a"][1:])
+                                    if src_ok:
+                                        ev["delta"] = (cfg.op_const(adds[0]["b"]) or cfg.op_const(adds[0]["a"])).get("v")
         if node_sw:
             sw = node_sw[0]
             if cfg.find_path(b, [0], [i], removed_edges=[sw["true_edge"]]) is None:
@@ -152,7 +182,7 @@ def run(ctx):
     for k, path in VARIANTS.items():
         b = ctx.anchor("R14a", path)
         if b:
-            evs[k] = (b, events(b))
+            evs[k] = (b, events(b, fa))
     for k, (b, es) in evs.items():
         want_dir = "rev" if k.endswith("_rev") else "fwd"
         got = {}
